@@ -19,7 +19,7 @@
 (***************************************************************************)
 EXTENDS Integers, Sequences, FiniteSets, TLC, Json, InjectionMath
 
-CONSTANTS Family,      \* which sub-space Init enumerates: "forms" | "ranges" | "paths" | "pick" (random cross product)
+CONSTANTS Family,      \* which sub-space Init enumerates: "forms" | "ranges" | "paths" | "seq" (injection sequences, MaxInj > 1) | "pick" (random cross product)
           MaxInj,      \* injections per behaviour (C06 superposition)
           EmitOn
 
@@ -60,6 +60,11 @@ PathsFamily == {c \in {[Base EXCEPT !.p0 = p, !.slope = sl, !.curv = cv, !.smear
                        : p \in {-20, 13, 60, 130}, sl \in {-7, 0, 2, 9}, cv \in {0, 1}, sm \in {0, 1, 2, 3}, ts \in {1, 2, 3},
                          fs \in {1, 2, 4}, ip \in BOOLEAN, it \in BOOLEAN, if \in BOOLEAN, w \in {6, 30, 50}} : Specified(c)}
 
+(* sequences of injections into ONE frame whose bounding ranges differ in place and / or width, with and without
+   frequency sub-sampling: whatever the frame remembers of an earlier injection must not leak into a later one *)
+SeqFamily == {c \in {[Base EXCEPT !.bnd = b, !.iF = if, !.fsub = fs, !.p0 = p]
+                     : b \in {<<>>, <<1, 4>>, <<2, 5>>, <<0, 3>>, <<2, 9>>, <<-2, 3>>}, if \in BOOLEAN, fs \in {2}, p \in {40}} : Specified(c)}
+
 Geos == [F : {5, 6}, T : {2, 3}, asc : BOOLEAN]
 
 Init == /\ geo \in (IF Family = "pick" THEN Geos ELSE {[F |-> 6, T |-> 3, asc |-> TRUE], [F |-> 5, T |-> 2, asc |-> FALSE]})
@@ -69,7 +74,7 @@ Init == /\ geo \in (IF Family = "pick" THEN Geos ELSE {[F |-> 6, T |-> 3, asc |-
 
 (* whole configurations from an exhaustive family *)
 PickWhole == /\ stage = "whole" /\ Len(cfgs) < MaxInj
-             /\ \E c \in (CASE Family = "forms" -> FormsFamily [] Family = "ranges" -> RangesFamily [] OTHER -> PathsFamily) :
+             /\ \E c \in (CASE Family = "forms" -> FormsFamily [] Family = "ranges" -> RangesFamily [] Family = "seq" -> SeqFamily [] OTHER -> PathsFamily) :
                     cur' = c
              /\ stage' = "inject" /\ UNCHANGED <<cfgs, prior, geo, hist>>
 
